@@ -69,8 +69,54 @@ def return_kinds(ctx, fi):
     return kinds
 
 
+def value_preserving(fn) -> bool:
+    """Every return of fn is its parameter, or a name returned under the test `<param> == <name>`."""
+    from ..fieldflow import FuncFlow as _FF
+    if isinstance(fn.node, ast.Lambda) or len(fn.params) != 1:
+        return False
+    p = fn.params[0]
+    ok_any = False
+
+    def walk(stmts, tests):
+        nonlocal ok_any
+        for st in stmts:
+            if isinstance(st, ast.Return):
+                v = st.value
+                if isinstance(v, ast.Name) and v.id == p:
+                    ok_any = True
+                    continue
+                if isinstance(v, ast.Name) and any(
+                        isinstance(c, ast.Compare) and len(c.ops) == 1 and isinstance(c.ops[0], ast.Eq)
+                        and {ast.unparse(c.left), ast.unparse(c.comparators[0])} == {p, v.id} for t in tests for c in ast.walk(t)):
+                    ok_any = True
+                    continue
+                return False
+            if isinstance(st, ast.If):
+                if walk(st.body, tests + [st.test]) is False:
+                    return False
+                if walk(st.orelse, tests) is False:
+                    return False
+            elif isinstance(st, ast.Try):
+                for blk in (st.body, st.orelse, st.finalbody, *[h.body for h in st.handlers]):
+                    if walk(blk, tests) is False:
+                        return False
+            elif isinstance(st, (ast.For, ast.While, ast.With)):
+                if walk(st.body, tests) is False:
+                    return False
+        return True
+    return walk(fn.body, []) is not False and ok_any
+
+
+def short_(q):
+    return q.split('.')[-1]
+
+
 def run(ctx, rep):
     ix, T = ctx.ix, ctx.typer
+    from .common import check_alias_name_kept
+    check_alias_name_kept(ctx, rep, "C05.9")
+    from .common import check_no_frozen_size
+    check_no_frozen_size(ctx, rep, "C05.8")
     from .common import check_fast_paths
     _fp_mods = ["jaqalpaq.core.algorithm.fill_in_let"]
     check_fast_paths(ctx, rep, "C05.7", [f for f in ix.functions.values() if f.module in _fp_mods and (f.cls is None or T.is_visitor(f.cls))], None)
@@ -286,7 +332,14 @@ def run(ctx, rep):
             if isinstance(v, ast.Name):
                 d = fl.defs.get(v.id, [])
                 v = d[0] if len(d) == 1 else v
-            plain = isinstance(v, ast.Subscript) or (isinstance(v, ast.Call) and isinstance(v.func, ast.Attribute) and v.func.attr == "get") or isinstance(v, ast.Name)
+            def is_plain(e):
+                return isinstance(e, ast.Subscript) or (isinstance(e, ast.Call) and isinstance(e.func, ast.Attribute) and e.func.attr == "get") or isinstance(e, ast.Name)
+            plain = is_plain(v)
+            if not plain and isinstance(v, ast.Call) and len(v.args) == 1 and is_plain(v.args[0]):
+                # a normaliser that provably returns its argument or a number equal to it (4.0 -> 4), as applied to declared values
+                for cs in T.callsites(f):
+                    if cs.node is v and cs.targets and all(value_preserving(t) for t in cs.targets):
+                        plain = True
             if not plain:
                 transformed = r
         if ok and transformed is not None:
@@ -297,6 +350,32 @@ def run(ctx, rep):
             rep.violation("C05.2", cons, one_sided, f.loc())
         else:
             rep.violation("C05.2", cons, "the declared value can be returned without consulting the override dictionary first", f.loc())
+
+    # ------------------------------------------------------------ C05.10
+    rep.rule("C05.10", "an overriding value is normalised by the same function the builder applies to a declared let value (4.0 stands for 4 in both), so that `override n=4.0` means what `let n 4.0` means", floor=1)
+    bl = ix.functions.get("jaqalpaq.core.circuitbuilder.Builder.build_let")
+    norm = set()
+    if bl is not None:
+        for cs in T.callsites(bl):
+            if cs.kind == "constructor" and cs.classes and cs.classes[0].endswith(".Constant") and isinstance(cs.node, ast.Call) and len(cs.node.args) >= 2:
+                a = cs.node.args[1]
+                if isinstance(a, ast.Call):
+                    for cs2 in T.callsites(bl):
+                        if cs2.node is a:
+                            norm |= {t.qualname for t in cs2.targets}
+    for f in resolvers:
+        cons = construct_of(f, "override-normalised")
+        if not norm:
+            rep.exempt("C05.10", cons, "declared let values are stored as given")
+            continue
+        used = set()
+        for cs in T.callsites(f):
+            if isinstance(cs.node, ast.Call) and any(isinstance(m, ast.Attribute) and m.attr == over_attr for a in cs.node.args for m in ast.walk(a)):
+                used |= {t.qualname for t in cs.targets}
+        if used & norm:
+            rep.ok("C05.10", cons, f"the override passes through {sorted(short_(q) for q in used & norm)}", f.loc())
+        else:
+            rep.violation("C05.10", cons, f"declared values are normalised by {sorted(short_(q) for q in norm)} (let n 4.0 is the integer 4) but an overriding value is substituted raw: `override n=4.0` for `register r[n]` or an index is rejected ('non-integer size 4.0') although the same program with `let n 4.0` is legal", f.loc(), witness="let n 4\nregister r[n]   with override {'n': 4.0}")
 
     # ------------------------------------------------------------ C05.4
     rep.rule("C05.4", "IR constructor arguments that must be objects never receive an S-expression from a visit", floor=2)
